@@ -26,3 +26,13 @@ package utils
 //@   modifies opts.Mode, fsSynced, fsClosed, fsPublishes, fsPubSrc, fsPubDst, fsRemoves, fsRemoved
 //@   ensures r0 == nil && !isTemp(dest) ==> fsPublishes == old(fsPublishes) + 1 && fsPubDst == dest && isTemp(fsPubSrc)
 //@   ensures r0 != nil || isTemp(dest) ==> fsPublishes == old(fsPublishes)
+
+// ---- C18: the directory-structure helper never creates anything outside its root
+
+// (only the root of a structure checks the scope; children delegate upwards)
+//@ func (*DirStructure).EnsureAbsPath
+//@   requires ds != nil
+//@   nopanic off
+//@   modifies *
+//@   at call (*DirStructure).ensure#0 assert dirPath == ds.Path
+//@   at call (*DirStructure).ensure#1 assert inside(ds.Path, dirPath)
